@@ -99,7 +99,7 @@ def phys(M, mag_s, unit):
 
 def shards(tier, seed):
     out = [("alphabet", "Fraction"), ("alphabet", "float"), ("alphabet", "Fraction", "after-named-system-queries"), ("alphabet", "Fraction", "default_system=cgs"), ("alphabet", "Fraction", "default_system=imperial"),
-           ("alphabet", "Fraction", "after-default-system-round-trip"), ("decimal-magnitudes",), ("numbers", "Fraction"), ("numbers", "float"), ("units", "Fraction"), ("units", "float"), ("modes",), ("constructor-paths",), ("log-zero",), ("after-redefinition",), ("siblings", "Fraction", "fresh"), ("siblings", "float", "fresh"), ("siblings", "Fraction", "after-all-pairs")] + [("object-histories", i) for i in range(len(OBJ_STARTS))]
+           ("alphabet", "Fraction", "after-default-system-round-trip"), ("decimal-magnitudes",), ("numbers", "Fraction"), ("numbers", "float"), ("units", "Fraction"), ("units", "float"), ("modes",), ("bridging-contexts",), ("constructor-paths",), ("log-zero",), ("after-redefinition",), ("siblings", "Fraction", "fresh"), ("siblings", "float", "fresh"), ("siblings", "Fraction", "after-all-pairs")] + [("object-histories", i) for i in range(len(OBJ_STARTS))]
     if tier == "thorough":
         for b in range(12):
             out.append(("allunits", b, 12))
@@ -606,6 +606,45 @@ def run_units(acc, nt):
     acc.sample({"clause": "unit-pair", "nt": nt, "a": "inch", "b": "foot"})
 
 
+def run_bridging_contexts(acc):
+    """Ordering across dimensions raises DimensionalityError also while a context that BRIDGES the two dimensions is
+    active (sp: length <-> frequency <-> energy; boltzmann: temperature <-> energy): such a context makes to() succeed
+    across them, it never makes the two quantities comparable. Equality inside a context is context-relative in pint
+    (== converts through the active rules) and is not judged here; same-dimension ordering must be unchanged."""
+    M = model()
+    for how in ("with-block", "enable_contexts"):
+        for ctxs in (("sp",), ("boltzmann",), ("sp", "boltzmann")):
+            ureg = regs.default("Fraction", fresh=True)
+            Q = ureg.Quantity
+            items = [(m, u, phys(M, m, u)) for m, u in ALPHABET]
+            items = [(m, u, p) for m, u, p in items if p[2] == "mult" and p[1] is not None and p[1] == p[1]]
+            qs = [Q(parse_mag(m, "Fraction"), u) for m, u, _ in items]
+
+            def body():
+                for i, j in itertools.product(range(len(qs)), repeat=2):
+                    (ma, ua, (dka, va, ka)), (mb, ub, (dkb, vb, kb)) = items[i], items[j]
+                    a, b = qs[i], qs[j]
+                    for opn, op in (("<", lambda x, y: x < y), ("<=", lambda x, y: x <= y), (">", lambda x, y: x > y), (">=", lambda x, y: x >= y)):
+                        acc.ev()
+                        case = {"a": [ma, ua], "b": [mb, ub], "op": opn, "contexts": list(ctxs), "activation": how, "clause": "bridging-contexts"}
+                        o = call(lambda: op(a, b))
+                        if dka != dkb:
+                            acc.nt(("bridge", ctxs, how, ma, ua, mb, ub, opn))
+                            if o[0] != "exc:DimensionalityError":
+                                acc.violation(["quantity-pair", "ordering", "cross-dimension-does-not-raise-DimensionalityError", "inside-a-context-bridging-the-dimensions"], case, "DimensionalityError", o)
+                        elif o != ("ok", op(va, vb)):
+                            acc.violation(["quantity-pair", "ordering", "disagrees-with-physical-value", "inside-a-context-bridging-the-dimensions"], case, op(va, vb), o)
+
+            if how == "with-block":
+                with ureg.context(*ctxs):
+                    body()
+            else:
+                ureg.enable_contexts(*ctxs)
+                body()
+    acc.outcome("bridging-contexts")
+    acc.sample({"clause": "bridging-contexts", "contexts": ["sp"], "a": ["1", "meter"], "b": ["1", "hertz"], "ops": ["<", "<=", ">", ">="], "expected": "DimensionalityError"})
+
+
 def run_modes(acc):
     """offset quantities against zero in autoconvert mode compare in base units; bool()"""
     M = model()
@@ -691,6 +730,8 @@ def run_shard(acc, shard, tier, seed):
         run_units(acc, shard[1])
     elif k == "modes":
         run_modes(acc)
+    elif k == "bridging-contexts":
+        run_bridging_contexts(acc)
     elif k == "constructor-paths":
         run_constructor_paths(acc)
     elif k == "log-zero":
@@ -711,7 +752,9 @@ def replay(rec):
     site, case = rec["site"], rec["case"]
     acc = core.Acc(PROPERTY)
     nt = case.get("nt", "Fraction")
-    if site[2] == "in-place-history-of-the-object-changes-the-answer":
+    if case.get("clause") == "bridging-contexts":
+        run_bridging_contexts(acc)
+    elif site[2] == "in-place-history-of-the-object-changes-the-answer":
         run_object_histories(acc, [i for i, st in enumerate(OBJ_STARTS) if [st[1], st[2]] == case["start"]][0])
     elif "built-by" in case:
         run_constructor_paths(acc)
@@ -753,3 +796,4 @@ MANIFEST["text"] += " Object histories: 7 start quantities (scalar, ndarray, zer
 MANIFEST["text"] += ' Exponent siblings: a 20-quantity alphabet of compound units that differ only in the sign or size of one exponent (km/s, km/s**2, km*s, km**-1, ...), all pairs/triples, on a fresh registry and after every pair was already compared.'
 MANIFEST["text"] += ' Logarithmic units at magnitude 0 (their reference level) against zero and unit quantities: 14-quantity alphabet, all pairs, == != < > hash, bare 0 and bool.'
 MANIFEST["text"] += ' After a redefinition: 17 quantities over inch and six units built on it; a registry used before the redefinition and an unused one answer ==, <, hash-equality alike, and == stays transitive.'
+MANIFEST['text'] += ' Bridging contexts: all ordered pairs of the multiplicative quantities of the alphabet x 4 ordering operators inside sp, boltzmann and both (with-block and enable_contexts): cross-dimension ordering still raises DimensionalityError, same-dimension ordering is unchanged.'
